@@ -353,6 +353,14 @@ Section Driver.
             pret (eres (fun r : network NF * history NF => ehist (snd r) ++ eweights (fst r))
                        (do r1 <- learn seq_pmap n (map fst data) (map snd data) None batch e1;
                         learn seq_pmap (fst r1) (map fst data) (map snd data) None batch e2))
+    | 11 => let* data := ppairs in let* v := ppairs in let* th := tok in let* batch := pnat in
+            let* e1 := tok in let* e2 := tok in
+            (* two consecutive calls of learn WITH validation data: the second call starts its own epoch
+               count and its own validation history *)
+            let validation := Some (map fst v, map snd v, th) in
+            pret (eres (fun r : network NF * history NF => ehist (snd r) ++ eweights (fst r))
+                       (do r1 <- learn seq_pmap n (map fst data) (map snd data) validation batch e1;
+                        learn seq_pmap (fst r1) (map fst data) (map snd data) validation batch e2))
     | 9 => let* idx := pnat in let* x := ptensor in let* g := ptensor in
            pret (eres (fun r : tensor * tensor * option tensor =>
                          etensor (fst (fst r)) ++ etensor (snd (fst r)) ++ eopt etensor (snd r))
